@@ -27,18 +27,24 @@ DRIVER = "dm_dfrows"
 LEAN_MODULES = ["DaskModel.Props.C37"]
 CASE_TIMEOUT_S = 60
 LEVEL_TEXT = (
-    "Proved in Lean: split_every_irrelevant — for chunk/combine/aggregate that factor through a monoid homomorphism the "
-    "lowered ApplyConcatApply -> TreeReduce(Chunk) (toolz.partition_all batches, the while-loop of TreeReduce._layer with a "
-    "proved fuel bound, final aggregate) returns the reduction of the CONCATENATED column for every partitioning (empty "
-    "partitions included) and every split_every (False, None->8, any int >= 2); instances sum/max/count(skipna=True) and "
-    "mean as the exact pair (sum, count); (n, sum, sum of squares) is a homomorphic image (exact-algebra content of "
-    "var/std/sem). Refuted in Lean and on the real code: max/min(skipna=False) with an empty partition (known finding). "
-    "Validated by correspondence only: float rounding (Chan merge for var), min_count, dtypes, idxmin/idxmax, nunique, "
-    "value_counts, mode, nlargest/nsmallest, describe, cov/corr, axis=1.")
-LEVEL_NOTE = ("Trusted: Lean kernel; integer-cell encoding of columns; pandas as reference for the per-partition kernels "
-              "(each Lean kernel is diffed against pandas every run); floats compared within rtol 1e-9.")
-TECHNIQUE = "Lean 4 proof (monoid-homomorphism tree-reduction theorem with termination) + differential correspondence (tree shape, partition level, API level)"
-ASSUMPTIONS = ["pandas Series.sum/prod/max/min/count(skipna) on one block = sumK/prodK/maxK/minK/countK (validated: reducespec vs pandas)",
+    "Proved in Lean (every partitioning, empty and all-NA partitions included; every split_every: False, None->8, any int >= 2; "
+    "termination of the TreeReduce._layer loop inside a proved fuel bound): split_every_irrelevant — chunk/combine/aggregate "
+    "that factor through a monoid homomorphism give the reduction of the CONCATENATED column; tree_eq_single_partition — the "
+    "tree equals the same chunk/aggregate run on ONE partition holding everything. Instances: sum/prod (skipna both ways), "
+    "count, mean as the exact pair (sum, count), max/min for skipna=True AND skipna=False (full since /repo fix 20e3626: an empty "
+    "partition contributes no partial result; the former refutation max_noskip_refuted is gone), any/all, Series.idxmax/idxmin "
+    "(first-best-row monoid; ValueError exactly when pandas raises), value_counts (count of every key; NaN is a key iff "
+    "dropna=False), nlargest/nsmallest (top-n tables under merge), (n, sum, sum of squares) as a homomorphic image (exact "
+    "content of var/std/sem). Validated by correspondence only: float rounding (Chan merge for var), min_count, dtypes, "
+    "DataFrame idxmin/idxmax, nunique, mode, describe, cov/corr, axis=1, len (incl. len of selected partitions), value_counts "
+    "ordering/normalize.")
+LEVEL_NOTE = ("Trusted: Lean kernel; integer-cell encoding of columns (labels = positions); pandas as reference for the "
+              "per-partition kernels (every Lean kernel — sumK/prodK/maxK/minK/countK/anyK/allK/idxK/countKey/topK — is diffed "
+              "against pandas every run); floats compared within rtol 1e-9. Known findings (2): DataFrame.idxmax/idxmin with an "
+              "all-NA column inside one partition, and with a string column under skipna=False.")
+TECHNIQUE = "Lean 4 proof (monoid-homomorphism tree-reduction theorem with termination, 12 instances) + differential correspondence (tree shape, chunk/combine/aggregate functions, partition level, API level)"
+ASSUMPTIONS = ["pandas Series.sum/prod/max/min/count/any/all/idxmax/idxmin/value_counts/nlargest/nsmallest on one block = the Lean kernels (validated: reducespec / reduce2spec vs pandas)",
+               "idxmaxmin_chunk/_combine/_agg, Max.chunk/Max.combine, M.value_counts/value_counts_combine on real partial results = idxChunk/idxCombine/idxAgg, mmChunk/mmCombine, vcChunk/vcCombine (validated: idxfn / mmfn / vcfn)",
                "float arithmetic is outside the theorems (exact integers in the model)"]
 
 HOWS = ["sum", "prod", "max", "min", "count", "mean"]
@@ -573,7 +579,7 @@ def generate(ctx):
             if isinstance(se, int) and se < 2 and n > 3:
                 continue
             yield "shape", {"n": n, "se": se}
-    for _ in range(ctx.n(260, 5000)):
+    for _ in range(ctx.n(220, 5000)):
         n = rng.randint(0, 14)
         how = rng.choice(HOWS)
         cells = U.gen_cells(rng, n)
@@ -587,14 +593,14 @@ def generate(ctx):
         lens = U.gen_lens(rng, n, 5) if t < 0.6 else U.gen_lens(rng, n, 12)
         yield "reduce", {"cells": cells, "lens": lens, "how": how, "skipna": rng.random() < 0.7,
                          "se": rng.choice(SES), "dtype": dtype, "known": rng.random() < 0.7}
-    for _ in range(ctx.n(110, 2500)):
+    for _ in range(ctx.n(90, 2500)):
         yield "reduce2", gen_reduce2(rng)
     for _ in range(ctx.n(24, 300)):
         n = rng.randint(1, 14)
         yield "lenparts", {"n": n, "index": sorted(rng.sample(range(40), n)), "npartitions": rng.randint(1, 4),
                            "what": rng.choice(["frame", "column", "series"]), "len_first": rng.random() < 0.7,
                            "selections": [rng.choice([rng.randint(0, 3), [rng.randint(0, 3), rng.randint(0, 3)]]) for _ in range(3)]}
-    for _ in range(ctx.n(230, 4000)):
+    for _ in range(ctx.n(190, 4000)):
         yield "api", gen_api(rng)
 
 
